@@ -42,6 +42,8 @@ def slots_spec(spec):
             res.setdefault(q, []).append(("trace", segs, sx.unS(body[-1][1]), lz))
     return res
 
+STATS = {"answers_compared_exactly_with_continuation_reference": 0}
+
 def check_hist(case, iout, ires, spec_text, want=("answers", "output", "exhausted", "strings")):
     """yield (kind, why, detail) for each way the implementation's behaviour contradicts the specification.
     kind in want."""
@@ -98,11 +100,12 @@ def check_hist(case, iout, ires, spec_text, want=("answers", "output", "exhauste
                     return
                 got = o[2]
                 lz = s[3] if len(s) > 3 else None
-                if lz is not None and pos[q] < len(lz[0]) and builds[q] == 0 and len(builds) == 1 and "answers" in want \
-                        and sx_text(o[1]) != lz[0][pos[q]]:
-                    # cut-free program, single query: the continuation-style reference search (Spec/SpecLazy.v, proved equal
+                exact = lz is not None and pos[q] < len(lz[0]) and builds[q] == 0 and len(builds) == 1 and "answers" in want
+                if exact: STATS["answers_compared_exactly_with_continuation_reference"] += 1
+                if exact and sx_text(o[1]) != lz[0][pos[q]]:
+                    # single query: the continuation-style reference search (Spec/SpecLazy.v, Spec/SpecCut.v; proved equal
                     # to the model's search) fixes the substitution set itself, variable ids included
-                    yield ("answers", "answer %d of query %d has substitution set %s; the reference search (SpecLazy) gives %s"
+                    yield ("answers", "answer %d of query %d has substitution set %s; the continuation-style reference search (SpecLazy / SpecCut) gives %s"
                            % (pos[q] + 1, q, sx_text(o[1]), lz[0][pos[q]]), {})
                     return
                 if canon(got) != canon(ea):
